@@ -186,9 +186,15 @@ impl HnswIndex {
 
     /// Normalize a vector (for cosine similarity)
     fn normalize_vector(vec: &[f32]) -> Vec<f32> {
-        let norm: f32 = vec.iter().map(|x| x * x).sum::<f32>().sqrt();
-        if norm > 1e-10 {
-            vec.iter().map(|x| x / norm).collect()
+        // Accumulate in f64: squaring a tiny f32 component underflows, and a query
+        // of tiny norm still has a direction that must be compared by angle.
+        let norm: f64 = vec
+            .iter()
+            .map(|x| f64::from(*x) * f64::from(*x))
+            .sum::<f64>()
+            .sqrt();
+        if norm > 0.0 {
+            vec.iter().map(|x| (f64::from(*x) / norm) as f32).collect()
         } else {
             vec.to_vec()
         }
